@@ -113,6 +113,8 @@ class NdefApp(object):
                 return b"\x6B\x00"
             if self.enforce and le > self.mle:
                 return b"\x67\x00"
+            if self.cur == self.ndef_fid and off >= 2:
+                le += getattr(self, "over_answer", 0)      # a card that returns more message data than Le asked for
             return bytes(f[off:off + le]) + b"\x90\x00"
         if ins == 0xD6:
             if self.cur is None:
